@@ -285,6 +285,38 @@ func c20Instances() []c20Inst {
 			out = append(out, in)
 		}
 	}
+	// the placeholder _ between, before and after a repeated name (duplicates of _ itself are exempt)
+	for _, pl := range []struct {
+		list string
+		dup  bool
+	}{{"a, _, a", true}, {"a, _, _, a", true}, {"_, a, _, a", true}, {"a, a, _", true}, {"_, a, a", true}, {"_, _, a", false}, {"_, _", false}, {"a, _, b, _", false}} {
+		for _, form := range []string{"function g(%s) end", "local function g(%s) end", "h = function(%s) end", "t = {on = function(%s) end}"} {
+			in := c20Inst{code: fmt.Sprintf(form, pl.list), must: set(), mustNot: set(5, 7, 8, 14, 15, 16, 19, 20, 21), family: "parameter-list-with-placeholder"}
+			if pl.dup {
+				in.must[13] = true
+			} else {
+				in.mustNot[13] = true
+			}
+			out = append(out, in)
+		}
+	}
+	// chains of three operands of one operator: the grammar groups them to the left, so only an identical LEFT pair is
+	// "the same operand twice"
+	for _, op := range []string{"or", "and", "==", "<"} {
+		for _, e1 := range []string{"a", "b"} {
+			for _, e2 := range []string{"a", "b"} {
+				for _, e3 := range []string{"a", "b"} {
+					in := c20Inst{code: e1 + " " + op + " " + e2 + " " + op + " " + e3, expr: true, must: set(), mustNot: set(5, 7, 8, 13, 15, 16, 19, 20, 21), family: "operator-chain"}
+					if e1 == e2 {
+						in.must[14] = true
+					} else {
+						in.mustNot[14] = true
+					}
+					out = append(out, in)
+				}
+			}
+		}
+	}
 	out = append(out, c20Inst{code: "a, b = b, a", must: set(), mustNot: set(5, 7, 8, 13, 14, 15, 16, 19, 20, 21), family: "assignment"})
 	// two targets, two values: a self-assignment only if every target gets itself
 	nm := []string{"a", "b", "c"}
